@@ -38,6 +38,9 @@ pub struct TreeSpec {
     pub bad: u8,
     pub high_nibble: bool,
     pub latin1: bool,
+    /// pad directories with runs of deleted slots so that they span several clusters
+    #[serde(default)]
+    pub big_dirs: bool,
 }
 
 #[derive(Serialize, Deserialize, Clone, Debug, PartialEq)]
@@ -127,7 +130,7 @@ impl VolSpec {
             backup_boot: 6,
             fsinfo: FsInfoKind::Correct,
             label: false,
-            tree: TreeSpec { seed: 1, dirs: 0, files: 0, depth: 0, max_clusters: 1, lfn: false, deleted: false, vol_label: false, fragment: false, free: None, free_high: false, free_last: false, bad: 0, high_nibble: false, latin1: false },
+            tree: TreeSpec { seed: 1, dirs: 0, files: 0, depth: 0, max_clusters: 1, lfn: false, deleted: false, vol_label: false, fragment: false, free: None, free_high: false, free_last: false, bad: 0, high_nibble: false, latin1: false, big_dirs: false },
         }
     }
 }
@@ -373,6 +376,13 @@ impl<'a> Builder<'a> {
         for is_dir in kinds {
             if slots.len() + 6 >= cap {
                 break;
+            }
+            if self.spec.big_dirs && self.rng.chance(1, 2) && slots.len() + 40 < cap {
+                for k in 0..self.rng.range(6, 30) {
+                    let mut d = entry_raw(&make_name(&format!("PAD{}", k), "DEL"), 0x20, 0, 0, fat32, FORMAT_TIME);
+                    d[0] = 0xE5;
+                    slots.push(d);
+                }
             }
             if self.spec.deleted && self.rng.chance(1, 4) {
                 let mut d = entry_raw(&make_name("GONE", "OLD"), 0x20, 3, 77, fat32, FORMAT_TIME);
@@ -1008,6 +1018,7 @@ pub fn gen_volspec(rng: &mut Rng, bias: Bias, lba: u32, slot: u8) -> VolSpec {
             bad: if rng.chance(1, 3) { rng.range(1, 5) as u8 } else { 0 },
             high_nibble: fat32 && rng.chance(1, 3),
             latin1: rng.chance(1, 4),
+            big_dirs: rng.chance(1, 3),
         },
     }
 }
